@@ -42,6 +42,7 @@ package transaction
 //@   loop 2 ghost-end sum := sum + a
 //@   ensures @balanced: result.1 == nil ==> (forall j int :: {result.0[j]} 0 <= j && j < len(result.0) ==> result.0[j] != nil
 //@        && len(result.0[j].Postings) == 2 && pair(result.0[j].Postings[0], result.0[j].Postings[1]))
+//@   ensures [C10] [C20] @annotations: result.1 == nil ==> (forall j int :: {result.0[j]} 0 <= j && j < len(result.0) ==> result.0[j].Targets == t.Targets && result.0[j].Src == t.Src)
 //@   ensures @blocks: result.1 == nil ==> off[0] == 0 && off[len(t.Postings)] == len(result.0)
 //@   ensures @otherlegs: result.1 == nil ==> (forall k int :: {t.Postings[k]} 0 <= k && k < len(t.Postings) && !isIE(t.Postings[k].Account) ==>
 //@        off[k+1] == off[k] + 1 && legAny(result.0[off[k]], t.Postings[k], t.Postings[k].Quantity) && result.0[off[k]].Date == t.Date)
@@ -49,6 +50,7 @@ package transaction
 //@        off[k+1] - off[k] == sz[k] && sz[k] >= 1 && tot[k] == t.Postings[k].Quantity)
 //@   loop 1 invariant fresh(result) && off[0] == 0 && off[$i] == len(result) && 0 <= $i && $i <= len(t.Postings)
 //@   loop 1 invariant forall j int :: {result[j]} 0 <= j && j < len(result) ==> okTx(result[j])
+//@   loop 1 invariant [C10] [C20] @annotations: forall j int :: {result[j]} 0 <= j && j < len(result) ==> result[j].Targets == t.Targets && result[j].Src == t.Src
 //@   loop 1 invariant forall k int :: {t.Postings[k]} 0 <= k && k < $i && !isIE(t.Postings[k].Account) ==>
 //@        off[k+1] == off[k] + 1 && off[k] >= 0 && leg(result[off[k]], account, t.Postings[k], t.Postings[k].Quantity) && result[off[k]].Date == t.Date
 //@   loop 1 invariant forall k int :: {t.Postings[k]} 0 <= k && k < $i && isIE(t.Postings[k].Account) ==> off[k+1] - off[k] == sz[k]
@@ -57,6 +59,7 @@ package transaction
 //@   loop 1 invariant forall a int :: {off[a]} 0 <= a && a <= $i ==> 0 <= off[a] && off[a] <= len(result)
 //@   loop 2 invariant fresh(result) && 0 <= $i && $i <= len($range) && len($range) == len(partition.periods) && len(result) == entry(len(result)) + $i
 //@   loop 2 invariant forall j int :: {result[j]} 0 <= j && j < len(result) ==> okTx(result[j])
+//@   loop 2 invariant [C10] [C20] @annotations: forall j int :: {result[j]} 0 <= j && j < len(result) ==> result[j].Targets == t.Targets && result[j].Src == t.Src
 //@   loop 2 invariant sum + (len(partition.periods) - $i) * amount + ($i > 0 ? 0.0 : rem) == p.Quantity
 //@   loop 2 invariant $i > 0 ==> leg(result[len(result) - 1], account, p, $i == 1 ? amount + rem : amount)
 //@   loop 2 invariant forall x int :: {sz[x]} x != $i1 ==> sz[x] == entry(sz[x])
@@ -74,7 +77,11 @@ package transaction
 //@   ensures wfCommodities(reg.commodities)
 //@   modifies reg.accounts.index[*], reg.commodities.index[*]
 //@   ensures result.1 == nil ==> (forall j int :: {result.0[j]} 0 <= j && j < len(result.0) ==> okPostings(result.0[j]))
-//@   loop 1 invariant fresh(targets) && wfCommodities(reg.commodities)
+//@   callback expand=0
+//@   ensures [C10] @accrual: t.Addons.Accrual.Range.Start != t.Addons.Accrual.Range.End && result.1 == nil ==> tlen() == old(tlen()) + 1 && result.0 == tres("expand", old(tlen()))
+//@        && targ("expand", 2, old(tlen())) == &t.Addons.Accrual
+//@   ensures [C10] @plain: t.Addons.Accrual.Range.Start == t.Addons.Accrual.Range.End ==> tlen() == old(tlen()) && (result.1 == nil ==> len(result.0) == 1)
+//@   loop 1 invariant fresh(targets) && wfCommodities(reg.commodities) && tlen() == entry(tlen())
 //
 // Compare: date, description, then the postings pairwise, then the number of postings; two
 // transactions tie only if they agree in all of these (so equal-comparing transactions print alike).
